@@ -174,7 +174,9 @@ func main() {
 		"api_unreleasable_posted_reserved-freetext", "api_unreleasable_posted_free",
 		"api_shared_key_groups_app-prefix", "api_shared_key_groups_pool-prefix", "api_batch_posts_mixed",
 		"api_batch_posts_page-size-9999", "api_batch_posts_with_entries_sharing_key", "api_batch_shared_key_app-prefix",
-		"api_batch_shared_key_pool-prefix", "api_mixed_batch_foreign_entries"}
+		"api_batch_shared_key_pool-prefix", "api_mixed_batch_foreign_entries",
+		"api_neighbour_batches_forced_adjacency", "api_neighbour_adjacency_nonsts_then_sts_omitted",
+		"api_neighbour_adjacency_omitted_then_with_apptype", "api_neighbour_entries_apptype_omitted_judged"}
 	for _, k := range need {
 		if run.Counter(k) == 0 {
 			run.Inconclusive("counter " + k + " is zero: the situation was never observed")
